@@ -165,6 +165,8 @@ func PropC13(c *vs.Case, f Factory, kind string) error {
 	var body string
 	desc := ""
 	valid := ""
+	onlySuperseded := false
+	servedMalformed := false
 	h := func(_ *http.Request, reqBody []byte) HookResponse {
 		req, _ := vs.DecodeJSON(reqBody)
 		var resp map[string]any
@@ -175,6 +177,14 @@ func PropC13(c *vs.Case, f Factory, kind string) error {
 		}
 		vb, _ := json.Marshal(resp)
 		valid = string(vb)
+		if onlySuperseded {
+			// only the calls made for superseded revisions get the malformed answer
+			p, _ := req["parent"].(map[string]any)
+			if v, _ := getPath(p, "spec.template.v"); v == "v3" {
+				return HookResponse{Code: 200, Body: vb}
+			}
+		}
+		servedMalformed = true
 		return HookResponse{Code: code, Body: []byte(body), Header: http.Header{"Retry-After": []string{"1"}}}
 	}
 	validFor := func(which string) map[string]any {
@@ -262,6 +272,26 @@ func PropC13(c *vs.Case, f Factory, kind string) error {
 	c.Describe(func() any {
 		return map[string]any{"scenario": scn, "attacked": map[string]any{"hook": which, "finalizing": finalize}, "mutation": desc, "body": body, "code": code}
 	})
+	rollingKind := false
+	for _, ch := range scn.Cfg.Children {
+		if strings.HasPrefix(ch.Method, "Rolling") {
+			rollingKind = true
+		}
+	}
+	if kind == "composite" && rollingKind && !finalize && c.Bool() {
+		// a rollout is under way when the malformed answer arrives: it is then given for every live revision
+		env.W.Sim.ExtUpdate(scn.Cfg.ParentResource, scn.ParentNS(), scn.ParentName(), func(o map[string]any) {
+			o["spec"].(map[string]any)["template"].(map[string]any)["v"] = "v3"
+		})
+		if t0 := env.SyncFresh(); t0.Panic != "" {
+			return vs.Violf("C13/panic", "panic in a sync with valid hook answers while starting a rollout: %s", t0.Panic)
+		}
+		c.Class("rollout-in-progress")
+		if !customize && c.Bool() {
+			onlySuperseded = true
+			c.Class("malformed-answer-for-superseded-revisions-only")
+		}
+	}
 	if customize {
 		env.W.Hooks.Handle(CustomizeURL, func(_ *http.Request, _ []byte) HookResponse { return HookResponse{Code: code, Body: []byte(body)} })
 		// the customize answer is cached per parent generation: bump it so the hook is asked again
@@ -298,7 +328,7 @@ func PropC13(c *vs.Case, f Factory, kind string) error {
 	} else {
 		c.Class("accepted")
 		// strict decoding: a field the response type does not know makes the whole answer unusable
-		if scn.Cfg.Strict && !customize && mutatedPath == "unknownField" && len(t.Hooks) > 0 {
+		if scn.Cfg.Strict && !customize && mutatedPath == "unknownField" && servedMalformed {
 			return withTrace(vs.Violf("C13/strict-accepts-unknown-field", "strict response decoding is configured and hook %s answered with an unknown top-level field (%s), yet the sync accepted the answer", which, desc), t)
 		}
 	}
